@@ -381,7 +381,13 @@ func (c *Ctx) c12LayoutTokens() []c12Tok {
 		case 4:
 			// not in with one or more blanks inside
 			// (the word `in` must be followed by a blank or the end of input for the two words to merge)
-			out = append(out, c12Tok{"not" + strings.Repeat(" ", 1+c.Rng.Intn(3)) + "in ", lexer.Operator, "not in", 0})
+			if c11AnySpace {
+				// fixed acceptWord: any white space between the words, nothing special after `in`
+				out = append(out, c12Tok{"not" + c.c12WS(1) + "in", lexer.Operator, "not in", 0})
+				c.R.Count("layout:not-in-any-space", 1)
+			} else {
+				out = append(out, c12Tok{"not" + strings.Repeat(" ", 1+c.Rng.Intn(3)) + "in ", lexer.Operator, "not in", 0})
+			}
 		default:
 			m := c.Rng.Intn(5)
 			val := make([]rune, m)
@@ -417,6 +423,7 @@ func runC12(c *Ctx) {
 	if c.Thorough() {
 		scale = 8
 	}
+	c11InitAcceptWord(c)
 
 	// ---------------- correspondence: lex
 	var srcs []string
